@@ -7,6 +7,7 @@ import EaselModel.Vec.Rounded
 import EaselModel.Vec.Kahan
 import EaselModel.Vec.Mat
 import EaselModel.Vec.GenOrder
+import EaselModel.Vec.CompareReal
 /-! # C20 — vector and SIMD numeric kernels compute their definition for every input
 
 Property theorems only (proofs are glue on the lemmas of `Simd/Lemmas.lean`, `Simd/LogExpLemmas.lean`, `Vec/Real.lean`, `Vec/XReal.lean`).
@@ -450,6 +451,89 @@ theorem gen_mat_flat {α : Type} [CElem α] (A B : Array α) (M N : Int) (c : α
     esl_mat_FSet A M N c = esl_vec_FSet A (M * N) c ∧ esl_mat_FScale A M N c = esl_vec_FScale A (M * N) c ∧
     esl_mat_FCopy A M N B = esl_vec_FCopy A (M * N) B ∧ esl_mat_FMax A M N = esl_vec_FMax A (M * N) ∧
     esl_mat_WCopy A M N B = esl_vec_WCopy A (M * N) B ∧ esl_mat_BCopy A M N B = esl_vec_BCopy A (M * N) B := Vec.gen_mat_flat A B M N c
+
+/-- `esl_vec_{I,L}Compare`: `eslOK` (0) exactly when the two vectors are equal, `eslFAIL` (1) otherwise; full 32 / 64-bit equality of
+    every cell (a difference only in the sign bit or only above bit 31 is a difference), never a fault -/
+theorem gen_ICompare (v w : Array Int32) (h : v.size = w.size) :
+    (v = w → esl_vec_ICompare v w v.size = some 0) ∧ (v ≠ w → esl_vec_ICompare v w v.size = some 1) :=
+  Vec.gen_icompare (fun a b => by simp [CElem.eq]) v w h
+theorem gen_LCompare (v w : Array Int64) (h : v.size = w.size) :
+    (v = w → esl_vec_LCompare v w v.size = some 0) ∧ (v ≠ w → esl_vec_LCompare v w v.size = some 1) :=
+  Vec.gen_icompare (fun a b => by simp [CElem.eq]) v w h
+example : esl_vec_LCompare (#[0, 4294967296] : Array Int64) (#[0, 0] : Array Int64) 2 = some 1 := by decide
+example : esl_vec_ICompare (#[-2147483648] : Array Int32) (#[0] : Array Int32) 1 = some 1 := by decide
+
+/-- `esl_vec_{D,F}Compare` as regenerated is the element-wise test `vcompare` built on the model of `esl_{D,F}Compare_old` (easel.c),
+    for any floating type; never a fault -/
+theorem gen_DCompare {α : Type} [VCmp α] (v w : Array α) (h : v.size = w.size) (tol : α) :
+    esl_vec_DCompare v w v.size tol = some (if vcompare v.toList w.toList tol then 0 else 1) ∧
+    esl_vec_FCompare v w v.size tol = some (if vcompare v.toList w.toList tol then 0 else 1) := ⟨Vec.gen_dcompare v w h tol, Vec.gen_dcompare v w h tol⟩
+/-- … and over the reals: `eslOK` iff every cognate pair is equal, or one is 0 and the other within `tol`, or the relative difference
+    `2|a-b|/|a+b|` is at most `tol` (`closeR`); reflexive; symmetric; `tol = 0` is exact equality -/
+theorem gen_DCompare_real (v w : Array ℝ) (h : v.size = w.size) (tol : ℝ) :
+    esl_vec_DCompare v w v.size tol = some 0 ↔ ∀ p ∈ v.toList.zip w.toList, Vec.closeR p.1 p.2 tol := by
+  rw [Vec.gen_dcompare v w h tol, ← Vec.vcompare_real]
+  cases vcompare v.toList w.toList tol <;> simp
+theorem compare_real_refl (v : Array ℝ) (tol : ℝ) : esl_vec_DCompare v v v.size tol = some 0 := by
+  rw [Vec.gen_dcompare v v rfl tol, Vec.vcompare_self]; rfl
+theorem compare_real_symm (a b tol : ℝ) : Vec.closeR a b tol → Vec.closeR b a tol := Vec.closeR_symm a b tol
+theorem compare_real_tol_zero (a b : ℝ) : Vec.closeR a b 0 ↔ a = b := Vec.closeR_zero a b
+/-- behaviour of the scalar test that its documentation does not spell out (kept visible): two infinities compare equal whatever
+    their signs, two NaNs compare equal -/
+theorem compareOld_inf_nan {α : Type} [VCmp α] (a b tol : α) :
+    (VCmp.isInf a = true → VCmp.isInf b = true → compareOld a b tol = true) ∧
+    (VCmp.isInf a = false → VCmp.isNaN a = true → VCmp.isNaN b = true → compareOld a b tol = true) := by
+  constructor
+  · intro ha hb; simp [compareOld, ha, hb]
+  · intro h0 ha hb; simp [compareOld, h0, ha, hb]
+example : (#[1, 2] : Array ℝ).size = (#[1, 2] : Array ℝ).size := rfl
+
+/-- `Swap`: the two vectors are exchanged, never a fault (the same C text for the four element types) -/
+theorem gen_Swap {α : Type} [CElem α] (v w : Array α) (h : w.size = v.size) :
+    (∃ r, esl_vec_ISwap v w v.size = some r ∧ r.1 = w ∧ r.2 = v) ∧ (∃ r, esl_vec_LSwap v w v.size = some r ∧ r.1 = w ∧ r.2 = v) ∧
+    (∃ r, esl_vec_DSwap v w v.size = some r ∧ r.1 = w ∧ r.2 = v) ∧ (∃ r, esl_vec_FSwap v w v.size = some r ∧ r.1 = w ∧ r.2 = v) :=
+  ⟨Vec.gen_swap v w h, Vec.gen_swap v w h, Vec.gen_swap v w h, Vec.gen_swap v w h⟩
+
+/-- the integer element-wise routines are exact over ℤ as long as every result (and, for `AddScaled`, every product) is representable;
+    otherwise the C behaviour is undefined (signed overflow; the model's `none`, UBSan abort) -/
+theorem gen_IScale_exact (v : Array Int32) (s : Int32) (h : ∀ x ∈ v.toList, -2147483648 ≤ x.toInt * s.toInt ∧ x.toInt * s.toInt ≤ 2147483647) :
+    ∃ r, esl_vec_IScale v v.size s = some r ∧ r.toList.map Int32.toInt = v.toList.map fun x => x.toInt * s.toInt := Vec.gen_iscale_exact v s h
+theorem gen_LScale_exact (v : Array Int64) (s : Int64)
+    (h : ∀ x ∈ v.toList, -9223372036854775808 ≤ x.toInt * s.toInt ∧ x.toInt * s.toInt ≤ 9223372036854775807) :
+    ∃ r, esl_vec_LScale v v.size s = some r ∧ r.toList.map Int64.toInt = v.toList.map fun x => x.toInt * s.toInt := Vec.gen_iscale_exact v s h
+theorem gen_IIncrement_exact (v : Array Int32) (x : Int32) (h : ∀ y ∈ v.toList, -2147483648 ≤ y.toInt + x.toInt ∧ y.toInt + x.toInt ≤ 2147483647) :
+    ∃ r, esl_vec_IIncrement v v.size x = some r ∧ r.toList.map Int32.toInt = v.toList.map fun y => y.toInt + x.toInt := Vec.gen_iincrement_exact v x h
+theorem gen_LIncrement_exact (v : Array Int64) (x : Int64)
+    (h : ∀ y ∈ v.toList, -9223372036854775808 ≤ y.toInt + x.toInt ∧ y.toInt + x.toInt ≤ 9223372036854775807) :
+    ∃ r, esl_vec_LIncrement v v.size x = some r ∧ r.toList.map Int64.toInt = v.toList.map fun y => y.toInt + x.toInt := Vec.gen_iincrement_exact v x h
+theorem gen_IAdd_exact (v w : Array Int32) (hw : w.size = v.size)
+    (h : ∀ p ∈ v.toList.zip w.toList, -2147483648 ≤ p.1.toInt + p.2.toInt ∧ p.1.toInt + p.2.toInt ≤ 2147483647) :
+    ∃ r, esl_vec_IAdd v w v.size = some r ∧ r.toList.map Int32.toInt = List.zipWith (fun x y => x.toInt + y.toInt) v.toList w.toList :=
+  Vec.gen_iadd_exact v w hw h
+theorem gen_LAdd_exact (v w : Array Int64) (hw : w.size = v.size)
+    (h : ∀ p ∈ v.toList.zip w.toList, -9223372036854775808 ≤ p.1.toInt + p.2.toInt ∧ p.1.toInt + p.2.toInt ≤ 9223372036854775807) :
+    ∃ r, esl_vec_LAdd v w v.size = some r ∧ r.toList.map Int64.toInt = List.zipWith (fun x y => x.toInt + y.toInt) v.toList w.toList :=
+  Vec.gen_iadd_exact v w hw h
+theorem gen_IAddScaled_exact (v w : Array Int32) (c : Int32) (hw : w.size = v.size)
+    (hm : ∀ y ∈ w.toList, -2147483648 ≤ y.toInt * c.toInt ∧ y.toInt * c.toInt ≤ 2147483647)
+    (h : ∀ p ∈ v.toList.zip w.toList, -2147483648 ≤ p.1.toInt + p.2.toInt * c.toInt ∧ p.1.toInt + p.2.toInt * c.toInt ≤ 2147483647) :
+    ∃ r, esl_vec_IAddScaled v w c v.size = some r ∧
+      r.toList.map Int32.toInt = List.zipWith (fun x y => x.toInt + y.toInt * c.toInt) v.toList w.toList := Vec.gen_iaddScaled_exact v w c hw hm h
+theorem gen_LAddScaled_exact (v w : Array Int64) (c : Int64) (hw : w.size = v.size)
+    (hm : ∀ y ∈ w.toList, -9223372036854775808 ≤ y.toInt * c.toInt ∧ y.toInt * c.toInt ≤ 9223372036854775807)
+    (h : ∀ p ∈ v.toList.zip w.toList, -9223372036854775808 ≤ p.1.toInt + p.2.toInt * c.toInt ∧ p.1.toInt + p.2.toInt * c.toInt ≤ 9223372036854775807) :
+    ∃ r, esl_vec_LAddScaled v w c v.size = some r ∧
+      r.toList.map Int64.toInt = List.zipWith (fun x y => x.toInt + y.toInt * c.toInt) v.toList w.toList := Vec.gen_iaddScaled_exact v w c hw hm h
+example : esl_vec_IScale (#[1073741823, -1073741824] : Array Int32) 2 2 = some #[2147483646, -2147483648] := by decide
+example : esl_vec_IScale (#[1073741824] : Array Int32) 1 2 = none := by decide
+example : esl_vec_IAddScaled (#[2147483647, -2147483648] : Array Int32) (#[1, -1] : Array Int32) (-1) 2 = some #[2147483646, -2147483647] := by decide
+example : esl_vec_IIncrement (#[2147483647] : Array Int32) 1 1 = none := by decide
+
+/-- esl_matrixops.c: `esl_mat_{D,F,I}Compare` are the vector comparisons on the flat `M*N` block -/
+theorem gen_mat_Compare_flat {α : Type} [VCmp α] (A B : Array α) (M N : Int) (tol : α) :
+    esl_mat_DCompare A B M N tol = esl_vec_DCompare A B (M * N) tol ∧ esl_mat_FCompare A B M N tol = esl_vec_FCompare A B (M * N) tol ∧
+    esl_mat_ICompare A B M N = esl_vec_ICompare A B (M * N) :=
+  ⟨(Vec.gen_mat_compare_flat A B M N tol).1, (Vec.gen_mat_compare_flat A B M N tol).2, Vec.gen_mat_icompare_flat A B M N⟩
 
 end generated
 
